@@ -26,6 +26,8 @@
 //	  Marshalizer, Hasher                 the gogo-proto marshalizer and blake2b hasher used by the fixtures
 //	  Leaves(tr, root) ([]KV, error)      drains GetAllLeavesOnChannel(root) (copies of key and value, in order)
 //	  DiffLeaves(leaves, model) (class, text string)   "" when the multiset equals the model exactly
+//	  NewRefBuilder() / (*RefBuilder).Root(model)      root hash of a FRESH never-committed trie holding exactly the
+//	                                      pairs of model (sorted inserts), for harnesses that keep several live tries
 //
 //	Canonical shape of a key set (computed from the keys alone, no elrond code)
 //	  ShapeOf(keys) Shape                 number of branch / extension / leaf nodes and depth of the unique
@@ -462,5 +464,54 @@ func Segments(keys [][]byte, key []byte) []Seg {
 		segs = append(segs, Seg{Kind: 'B', Start: off, Len: 1})
 		off++
 		paths = sub
+	}
+}
+
+// ---------------------------------------------------------------------------------------
+// reference roots
+
+// RefBuilder computes the root hash a FRESH trie reports for a set of pairs: every call builds a new, never
+// committed trie (level 5, sorted inserts, nothing else) over one private storage. It is the reference side of
+// "two tries holding the same pairs have the same root hash" for harnesses that keep several live tries.
+type RefBuilder struct {
+	env *Env
+}
+
+// NewRefBuilder creates the private storage of the reference tries
+func NewRefBuilder() (*RefBuilder, error) {
+	e, err := NewEnv(5)
+	if err != nil {
+		return nil, err
+	}
+	return &RefBuilder{env: e}, nil
+}
+
+// Root returns a copy of the root hash of a fresh trie holding exactly the pairs of model
+func (b *RefBuilder) Root(model map[string][]byte) ([]byte, error) {
+	tr, err := b.env.NewTrie(5)
+	if err != nil {
+		return nil, err
+	}
+	keys := make([]string, 0, len(model))
+	for k := range model {
+		keys = append(keys, k)
+	}
+	sort.Strings(keys)
+	for _, k := range keys {
+		if err = tr.Update([]byte(k), append([]byte{}, model[k]...)); err != nil {
+			return nil, err
+		}
+	}
+	h, err := tr.RootHash()
+	if err != nil {
+		return nil, err
+	}
+	return append([]byte{}, h...), nil
+}
+
+// Close stops the private storage manager
+func (b *RefBuilder) Close() {
+	if b != nil {
+		b.env.Close()
 	}
 }
